@@ -32,6 +32,17 @@
      are stated for receiving calls in which no acknowledgement falls due (`quiet`; C17 decides when one does - then one
      Acknowledgement packet precedes the results, events and states being the same).  Packets are delivered one per input call;
      C15 for sessions carries events, verdict and state to any other fragmentation.
+   - C02_publish_completes_windows / C02_play_completes_windows (AckHeadroom.v): the same two workflows with NO per-call premise: if
+     each side's announced acknowledgement window exceeds its outstanding count by a few packets' worth (a packet of these
+     exchanges is at most 17 * (|key| + 200) + 16 bytes, SerSizeProofs.v), every call returns exactly the listed packets and
+     events and the final states are reached; sessions that were never told a window satisfy the premise trivially.
+     C02_quiet_of_headroom / C02_quiet_when_headroom: the arithmetic criterion behind it.
+   - C02_play_metadata: a metadata item the server sends is raised by the playing client as exactly that metadata
+     (C02_metadata_mapping_identity_server: the server's property mapping read by the client is the identity).
+   - C02_server_packet_any_fragmentation / C02_client_packet_any_fragmentation: a packet that a one-call delivery accepts gives the
+     same events, verdict and protocol state when it arrives cut into pieces in any way (C15 for sessions + the link's quiescence).
+   - C02_server_notes_acknowledgement / C02_client_notes: the Acknowledgement a peer emits when its counter reaches the window, and
+     the other control messages of the opening, are reported and change nothing of the workflow state.
    - C02_stop_publishing_raises_finished / C02_stop_playback_raises_finished: stop emits deleteStream for the active stream, the
      client returns to Connected, and the server raises exactly the matching finished event and forgets the stream.
    - C02_sessions_start, C02_connect_completes_decided, C02_connect_ready (ProtocolStart.v): the chain from two FRESHLY CREATED
@@ -48,7 +59,7 @@
    at the composed level (their per-session behaviour is C09/C10): the composed model
 *)
 From RML Require Import Model.Base Model.Utf8 Model.Float Model.Amf0 Model.Chunk Model.ChunkSer Model.ChunkDe Model.Messages Model.SessionCommon Model.Server Model.Client
-  Model.Interop Proofs.ChunkSerProofs Proofs.InteropProofs Proofs.SessionPartition Proofs.ClientPartition Proofs.InteropPartition Proofs.MetadataProofs Proofs.InteropMetadata Proofs.Transport Proofs.ServerProofs Proofs.SessionFrame Proofs.SessionTrace Proofs.ClientTrace Proofs.SessionTransport Proofs.ProtocolProofs Proofs.ProtocolFlow Proofs.ProtocolStart Proofs.ConfigProofs Proofs.FloatProofs Proofs.MessageProofs Proofs.ServerProofs.
+  Model.Interop Proofs.ChunkSerProofs Proofs.InteropProofs Proofs.SessionPartition Proofs.ClientPartition Proofs.InteropPartition Proofs.MetadataProofs Proofs.InteropMetadata Proofs.Transport Proofs.ServerProofs Proofs.SessionFrame Proofs.SessionTrace Proofs.ClientTrace Proofs.SessionTransport Proofs.ProtocolProofs Proofs.ProtocolFlow Proofs.ProtocolStart Proofs.PlayMetadata Proofs.ProtocolFragments Proofs.AckHeadroom Proofs.ConfigProofs Proofs.FloatProofs Proofs.MessageProofs Proofs.ServerProofs.
 From Coq Require Import String.
 Local Open Scope N_scope.
 
@@ -174,9 +185,11 @@ Theorem C02_connect_completes : forall c s app clock sclock aclock cclock,
   cl_state c = Disconnected -> strings_ok c app -> ack_window (sv_ack s) = None ->
   utf8_valid (sv_fms s) = true -> utf8_valid (str "Successfully connected on app: " ++ strip_slash app) = true ->
   clock < 4294967296 -> aclock < 4294967296 -> cclock < 4294967296 -> 1 <= cc_chunk (cl_cfg c) <= 2147483647 ->
+  (* either a declared error (a body exceeding the chunk layer's 16 MiB limit) ... *)
   (exists e, client_request_connection c app clock = (fst (client_request_connection c app clock), CErr e)) \/
   (exists b c1 s1 rs e, client_request_connection c app clock = (c1, COk [CPacket b false]) /\
      server_handle_input s b sclock = (s1, ROk rs) /\ snd (server_accept s1 (sv_next_req s) aclock) = RErr e) \/
+  (* ... or the whole exchange *)
   exists b1 c1 s1 b2 s2 c2 rs pre w1 w2,
     client_request_connection c app clock = (c1, COk [CPacket b1 false]) /\
     server_handle_input s b1 sclock = (s1, ROk [SEvent (EvConnectionRequested (sv_next_req s) (strip_slash app))]) /\
@@ -195,6 +208,7 @@ Theorem C02_server_receives_message : forall s ser m ts sid f d b ser' clock,
     of_payload (m_tid p) (m_data p) = Ok m /\ m_sid p = sid /\ m_ts p = ts /\
     same_core s s0 /\ sv_de s0 = sv_de s /\ ser_ok (sv_ser s0) /\ events pre = [] /\
     (quiet (sv_ack s) b -> pre = [] /\ sv_ser s0 = sv_ser s) /\
+    sv_ack s0 = fst (ack_step (sv_ack s) (lenN b)) /\
     Link ser' de3 /\
     server_handle_input s b clock =
       (let '(s1, r) := h_message (upd_de s0 de1) p clock in
@@ -209,6 +223,7 @@ Theorem C02_client_receives_message : forall c ser m ts sid f d b ser' clock,
     (cl_cfg c0 = cl_cfg c /\ cl_next_tr c0 = cl_next_tr c /\ cl_trs c0 = cl_trs c /\ cl_state c0 = cl_state c /\
      cl_app c0 = cl_app c /\ cl_stream c0 = cl_stream c) /\ cl_de c0 = cl_de c /\ ser_ok (cl_ser c0) /\ cevents pre = [] /\
     (quiet (cl_ack c) b -> pre = [] /\ cl_ser c0 = cl_ser c) /\
+    cl_ack c0 = fst (ack_step (cl_ack c) (lenN b)) /\
     Link ser' de3 /\
     client_handle_input c b clock =
       (let '(c1, r) := ch_message (cupd_de c0 de1) p clock in
@@ -388,7 +403,7 @@ Proof. exact start_quiet. Qed.
 
 Theorem C02_connect_completes_decided : forall c s app clock sclock aclock cclock,
   Link (cl_ser c) (sv_de s) -> Link (sv_ser s) (cl_de c) -> ser_ok (cl_ser c) -> ser_ok (sv_ser s) ->
-  cl_state c = Disconnected -> strings_ok c app -> sizes_ok c app -> utf8_valid (strip_slash app) = true -> ack_window (sv_ack s) = None ->
+  cl_state c = Disconnected -> strings_ok c app -> sizes_ok c app -> ack_window (sv_ack s) = None ->
   utf8_valid (sv_fms s) = true -> lenN (sv_fms s) <= 65535 ->
   clock < 4294967296 -> aclock < 4294967296 -> cclock < 4294967296 -> 1 <= cc_chunk (cl_cfg c) <= 2147483647 ->
   exists b1 c1 s1 b2 s2 c2 rs pre w1 w2,
@@ -401,6 +416,102 @@ Theorem C02_connect_completes_decided : forall c s app clock sclock aclock ccloc
     sv_connected s2 = true /\ sv_app s2 = Some (strip_slash app) /\
     Link (sv_ser s2) (cl_de c2) /\ s_max (cl_ser c2) = cc_chunk (cl_cfg c).
 Proof. exact connect_completes_decided. Qed.
+
+Theorem C02_publish_completes_windows : forall c s app key t k1 k2 k3 k4 k5 k6 k7,
+  Link (cl_ser c) (sv_de s) -> Link (sv_ser s) (cl_de c) -> ser_ok (cl_ser c) -> ser_ok (sv_ser s) ->
+  cl_state c = Connected -> cl_next_tr c < 4294967296 -> sv_next_stream s < 4294967296 ->
+  sv_connected s = true -> sv_app s = Some app -> utf8_valid key = true -> lenN key <= 65000 ->
+  k1 < 4294967296 -> k2 < 4294967296 -> k3 < 4294967296 -> k5 < 4294967296 ->
+  (forall w, ack_window (sv_ack s) = Some w -> ack_since (sv_ack s) + 2 * (17 * (lenN key + 200) + 16) < w) ->
+  (forall w, ack_window (cl_ack c) = Some w -> ack_since (cl_ack c) + 3 * (17 * (lenN key + 200) + 16) < w) ->
+  exists c1 b1 s1 b2 c2 b3 s2 s3 b4 b5 c3 c4,
+    client_request_publishing c key t k1 = (c1, COk [CPacket b1 false]) /\
+    server_handle_input s b1 k2 = (s1, ROk [SPacket b2 false]) /\
+    client_handle_input c1 b2 k3 = (c2, COk [CPacket b3 false]) /\
+    server_handle_input s1 b3 k4 = (s2, ROk [SEvent (EvPublishRequested (sv_next_req s) app key (mode_of_type t))]) /\
+    server_accept s2 (sv_next_req s) k5 = (s3, ROk [SPacket b4 false; SPacket b5 false]) /\
+    client_handle_input c2 b4 k6 = (c3, COk []) /\
+    client_handle_input c3 b5 k7 = (c4, COk [CEvent CPublishAccepted]) /\
+    publishing_stream c4 = Ok (sv_next_stream s) /\ publishing_key s3 (sv_next_stream s) = Some (app, key) /\
+    Link (cl_ser c4) (sv_de s3) /\ Link (sv_ser s3) (cl_de c4) /\ ser_ok (cl_ser c4) /\ ser_ok (sv_ser s3) /\ sv_connected s3 = true.
+Proof. exact publish_completes_windows. Qed.
+
+Theorem C02_play_completes_windows : forall c s app key k1 k2 k3 k4 k5 k6 t1 t2 t3 t4 t5,
+  Link (cl_ser c) (sv_de s) -> Link (sv_ser s) (cl_de c) -> ser_ok (cl_ser c) -> ser_ok (sv_ser s) ->
+  cl_state c = Connected -> cl_next_tr c < 4294967296 -> sv_next_stream s < 4294967296 -> cc_buffer (cl_cfg c) < 4294967296 ->
+  sv_connected s = true -> sv_app s = Some app -> utf8_valid key = true -> lenN key <= 65000 ->
+  k1 < 4294967296 -> k2 < 4294967296 -> k3 < 4294967296 -> k6 < 4294967296 ->
+  (forall w, ack_window (sv_ack s) = Some w -> ack_since (sv_ack s) + 3 * (17 * (lenN key + 200) + 16) < w) ->
+  (forall w, ack_window (cl_ack c) = Some w -> ack_since (cl_ack c) + 6 * (17 * (lenN key + 200) + 16) < w) ->
+  exists c1 b1 s1 b2 c2 b3 b4 s2 s3 s4 p1 p2 p3 p4 p5 c3 c4 c5 c6 c7,
+    client_request_playback c key k1 = (c1, COk [CPacket b1 false]) /\
+    server_handle_input s b1 k2 = (s1, ROk [SPacket b2 false]) /\
+    client_handle_input c1 b2 k3 = (c2, COk [CPacket b3 false; CPacket b4 false]) /\
+    server_handle_input s1 b3 k4 = (s2, ROk []) /\
+    server_handle_input s2 b4 k5 = (s3, ROk [SEvent (EvPlayRequested (sv_next_req s) app key LiveOrRecorded None false (sv_next_stream s))]) /\
+    server_accept s3 (sv_next_req s) k6 = (s4, ROk [SPacket p1 false; SPacket p2 false; SPacket p3 false; SPacket p4 false; SPacket p5 false]) /\
+    client_handle_input c2 p1 t1 = (c3, COk [CEvent (CUnhandleableStatus (str "NetStream.Play.Reset"))]) /\
+    client_handle_input c3 p2 t2 = (c4, COk []) /\
+    client_handle_input c4 p3 t3 = (c5, COk [CEvent CPlaybackAccepted]) /\
+    client_handle_input c5 p4 t4 = (c6, COk []) /\
+    client_handle_input c6 p5 t5 = (c7, COk []) /\
+    cl_state c7 = Playing /\ playing_on c7 (sv_next_stream s) /\
+    lookup (sv_next_stream s) (sv_streams s4) = Some (StPlaying key) /\ sv_app s4 = Some app /\ sv_connected s4 = true /\
+    Link (cl_ser c7) (sv_de s4) /\ Link (sv_ser s4) (cl_de c7) /\ ser_ok (cl_ser c7) /\ ser_ok (sv_ser s4).
+Proof. exact play_completes_windows. Qed.
+
+Theorem C02_quiet_of_headroom : forall a b,
+  (forall w, ack_window a = Some w -> ack_since a + lenN b < w) -> quiet a b.
+Proof. exact quiet_of_headroom. Qed.
+
+Theorem C02_quiet_when_headroom : forall ser m ts sid f d b ser' a tid body,
+  ser_ok ser -> send_message ser m ts sid f d = Ok (b, ser') -> to_payload m = Ok (tid, body) ->
+  (forall w, ack_window a = Some w -> ack_since a + 17 * lenN body + 16 < w) -> quiet a b.
+Proof. exact quiet_when_headroom. Qed.
+
+Theorem C02_play_metadata : forall s c sid md clock cclock s1 r1,
+  Link (sv_ser s) (cl_de c) -> ser_ok (cl_ser c) -> playing_on c sid -> sid < 4294967296 -> clock < 4294967296 ->
+  md_ok md -> enc_ok md ->
+  server_send_metadata s sid md clock = (s1, ROk r1) ->
+  exists b c2 r2, r1 = [SPacket b false] /\ same_core s s1 /\ sv_de s1 = sv_de s /\
+    client_handle_input c b cclock = (c2, COk r2) /\
+    cevents r2 = [CMetadata md] /\ playing_on c2 sid /\ cl_state c2 = cl_state c /\
+    Link (sv_ser s1) (cl_de c2) /\ ser_ok (cl_ser c2) /\
+    (quiet (cl_ack c) b -> r2 = [CEvent (CMetadata md)] /\ cl_ser c2 = cl_ser c).
+Proof. exact play_metadata_delivered. Qed.
+
+Theorem C02_metadata_mapping_identity_server : forall m,
+  md_ok m -> metadata_of_props (metadata_props_server m) = m.
+Proof. exact metadata_roundtrip_server. Qed.
+
+Theorem C02_server_packet_any_fragmentation : forall s ser b pieces clock s' rs,
+  Link ser (sv_de s) -> ser_ok (sv_ser s) -> List.concat pieces = b ->
+  server_handle_input s b clock = (s', ROk rs) ->
+  exists s2, feed_server s pieces clock [] = (s2, events rs, VOk) /\ same_core s' s2.
+Proof. exact server_packet_any_fragmentation. Qed.
+
+Theorem C02_client_packet_any_fragmentation : forall c ser b pieces clock c' rs,
+  Link ser (cl_de c) -> ser_ok (cl_ser c) -> List.concat pieces = b ->
+  client_handle_input c b clock = (c', COk rs) ->
+  exists c2, feed_client c pieces clock [] = (c2, cevents rs, CVOk) /\ csame_core c' c2.
+Proof. exact client_packet_any_fragmentation. Qed.
+
+Theorem C02_server_notes_acknowledgement : forall ser ser' b s n ts f sclock,
+  Link ser (sv_de s) -> ser_ok (sv_ser s) -> n < 4294967296 -> ts < 4294967296 ->
+  send_message ser (MAcknowledgement n) ts 0 f false = Ok (b, ser') ->
+  exists s2 r, server_handle_input s b sclock = (s2, ROk r) /\
+  events r = [EvAcknowledgement n] /\ same_core s s2 /\ Link ser' (sv_de s2) /\ ser_ok (sv_ser s2) /\
+  (quiet (sv_ack s) b -> r = [SEvent (EvAcknowledgement n)] /\ sv_ser s2 = sv_ser s).
+Proof. exact server_notes_acknowledgement. Qed.
+
+Theorem C02_client_notes : forall ser ser' b c m ts cclock f,
+  noted m -> Link ser (cl_de c) -> ser_ok (cl_ser c) -> ts < 4294967296 ->
+  send_message ser m ts 0 f false = Ok (b, ser') ->
+  exists c2 r, client_handle_input c b cclock = (c2, COk r) /\
+  (forall e, In e (cevents r) -> match e with CConnectionAccepted | CConnectionRejected _ | CPublishAccepted | CPlaybackAccepted | CVideo _ _ | CAudio _ _ | CMetadata _ => False | _ => True end) /\
+  ccore c c2 /\ Link ser' (cl_de c2) /\ ser_ok (cl_ser c2) /\
+  (quiet (cl_ack c) b -> cl_ser c2 = cl_ser c).
+Proof. exact client_notes. Qed.
 
 Example C02_scenario_publish :
   filter is_media_or_lifecycle (server_events_of (ex_run ex_publish_ops)) =
@@ -447,3 +558,13 @@ Print Assumptions C02_connect_ready.
 Print Assumptions C02_server_receives_chunk_size.
 Print Assumptions C02_client_receives_chunk_size.
 Print Assumptions C02_connect_completes_decided.
+Print Assumptions C02_publish_completes_windows.
+Print Assumptions C02_play_completes_windows.
+Print Assumptions C02_quiet_of_headroom.
+Print Assumptions C02_quiet_when_headroom.
+Print Assumptions C02_play_metadata.
+Print Assumptions C02_metadata_mapping_identity_server.
+Print Assumptions C02_server_packet_any_fragmentation.
+Print Assumptions C02_client_packet_any_fragmentation.
+Print Assumptions C02_server_notes_acknowledgement.
+Print Assumptions C02_client_notes.
